@@ -161,10 +161,41 @@ def make_coincident(rng, kind, scale, T):
     raise ValueError(kind)
 
 
+PLANAR_FLOWS = ["planar_xz", "uniaxial_z", "planar", "uniaxial"]
+
+
+def planar_gradient(rng, kind):
+    """Velocity gradient EXACTLY confined to a coordinate plane (one row and one column exactly zero, the usual 2-D set-up) but
+    with a NON-ZERO in-plane trace (compaction / dilation, uniaxial shortening): closed forms for 2-D incompressible flow
+    (principal strain rates +-sqrt(Dxx^2 + Dxz^2), 0) are wrong here, and only here.  planar_xz / uniaxial_z: the x-z plane
+    (PyDRex's own 2-D convention); planar / uniaxial: a random coordinate plane and in-plane axis.  Unit strain-rate scale."""
+    j = 1 if kind in ("planar_xz", "uniaxial_z") else int(rng.integers(3))      # out-of-plane axis
+    keep = [i for i in range(3) if i != j]
+    L = np.zeros((3, 3))
+    if kind.startswith("uniaxial"):
+        a = 2 if kind == "uniaxial_z" else keep[int(rng.integers(2))]
+        L[a, a] = -1.0 if rng.random() < 0.7 else 1.0
+    else:
+        B = rng.normal(size=(2, 2))
+        sgn = 1.0 if rng.random() < 0.5 else -1.0
+        if rng.random() < 0.6:      # both in-plane normal strain rates of the same sign (compaction / dilation with shear)
+            B[0, 0], B[1, 1] = sgn * float(rng.uniform(0.3, 1.5)), sgn * float(rng.uniform(0.3, 1.5))
+        else:                       # generic, trace clearly non-zero
+            B += np.eye(2) * float(rng.uniform(0.4, 1.2)) * sgn
+        for a in range(2):
+            for b in range(2):
+                L[keep[a], keep[b]] = B[a, b]
+    s = float(np.abs(np.linalg.eigvalsh((L + L.T) / 2)).max())
+    return L / s
+
+
 def make_L(rng, kind, scale=1.0, period=None):
     """returns (get_L(t, x), description).  Families of the quantifier."""
     if kind in COINCIDENT_FLOWS:
         return make_coincident(rng, kind, scale, float(period))
+    if kind in PLANAR_FLOWS:
+        L0 = planar_gradient(rng, kind) * scale
+        return (lambda t, x, L0=L0: L0.copy()), dict(kind=kind, L0=[hx(v) for v in L0.reshape(-1)])
     if kind in ("simple", "pure", "axisym", "general", "trace"):
         L0 = G.velocity_gradient(rng, kind) * scale
         return (lambda t, x, L0=L0: L0.copy()), dict(kind=kind, L0=[hx(v) for v in L0.reshape(-1)])
